@@ -521,38 +521,38 @@ Proof.
 Qed.
 
 (* ---- the effect of a complete COMMIT, table by table ------------------------------------------------------ *)
-Lemma filter_created : forall ro lb cr up idle u,
+Lemma filter_created : forall ro cr up idle u,
   NoDup (map tid cr ++ map tid up ++ idle) -> In u cr ->
-  filter (on_tbl (tid u)) (commit_ops ro lb cr up idle) = write_created lb u ++ commit_created u.
+  filter (on_tbl (tid u)) (commit_ops ro cr up idle) = write_created u ++ commit_created u.
 Proof.
-  intros ro lb cr up idle u Hnd Hin. unfold commit_ops. rewrite !filter_app.
+  intros ro cr up idle u Hnd Hin. unfold commit_ops. rewrite !filter_app.
   assert (Hcr : NoDup (map tid cr)) by (apply NoDup_app_l in Hnd; exact Hnd).
   assert (Hiu : In (tid u) (map tid cr)) by (apply in_map; exact Hin).
   assert (Hrest : ~ In (tid u) (map tid up ++ idle)) by (apply (NoDup_app_disj _ _ (tid u) Hnd Hiu)).
   assert (Hnup : ~ In (tid u) (map tid up)) by (intros H; apply Hrest; apply in_or_app; auto).
   assert (Hnid : ~ In (tid u) idle) by (intros H; apply Hrest; apply in_or_app; auto).
-  rewrite (filter_flat_map_one (write_created lb) tid cr u (write_created_tbl lb) Hcr Hin).
+  rewrite (filter_flat_map_one write_created tid cr u (write_created_tbl ) Hcr Hin).
   rewrite (filter_flat_map_one commit_created tid cr u commit_created_tbl Hcr Hin).
-  rewrite (filter_flat_map_none (write_updated lb) tid up (tid u) (write_updated_tbl lb) Hnup).
+  rewrite (filter_flat_map_none write_updated tid up (tid u) (write_updated_tbl ) Hnup).
   rewrite (filter_flat_map_none (commit_updated ro) tid up (tid u) (commit_updated_tbl ro) Hnup).
   assert (Hid : filter (on_tbl (tid u)) (flat_map release_idle idle) = []).
   { apply (filter_flat_map_none release_idle (fun x => x)); [apply release_idle_tbl | rewrite map_id; exact Hnid]. }
   rewrite Hid. simpl. rewrite ?app_nil_r. reflexivity.
 Qed.
 
-Lemma commit_effect_created : forall ro lb cr up idle s u dc,
+Lemma commit_effect_created : forall ro cr up idle s u dc,
   NoDup (map tid cr ++ map tid up ++ idle) -> In u cr -> lookup s (data (tid u)) = Some dc ->
-  let s' := run s (commit_ops ro lb cr up idle) in
-  lookup s' (data (tid u)) = Some (new_content lb u) /\ lookup s' (lockp (tid u)) = None
+  let s' := run s (commit_ops ro cr up idle) in
+  lookup s' (data (tid u)) = Some (new_content u) /\ lookup s' (lockp (tid u)) = None
   /\ (forall kd, kd <> KData -> kd <> KLock -> lookup s' (kd, tid u) = lookup s (kd, tid u)).
 Proof.
-  intros ro lb cr up idle s u dc Hnd Hu Hd. cbv zeta.
-  assert (R : forall kd, lookup (run s (commit_ops ro lb cr up idle)) (kd, tid u)
-                         = lookup (run s (write_created lb u ++ commit_created u)) (kd, tid u)).
+  intros ro cr up idle s u dc Hnd Hu Hd. cbv zeta.
+  assert (R : forall kd, lookup (run s (commit_ops ro cr up idle)) (kd, tid u)
+                         = lookup (run s (write_created u ++ commit_created u)) (kd, tid u)).
   { intros kd. rewrite (run_filter_tbl _ s (tid u) kd) by apply commit_ops_local.
-    rewrite (filter_created ro lb cr up idle u Hnd Hu). reflexivity. }
+    rewrite (filter_created ro cr up idle u Hnd Hu). reflexivity. }
   unfold data, lockp. rewrite !R. rewrite run_app.
-  assert (H1 : lookup (run s (write_created lb u)) (data (tid u)) = Some (new_content lb u)).
+  assert (H1 : lookup (run s (write_created u)) (data (tid u)) = Some (new_content u)).
   { unfold write_created. apply (encode_result _ _ _ _ dc). exact Hd. }
   split; [|split].
   - unfold commit_created, release_lock. stp. fsn. exact H1.
@@ -562,29 +562,29 @@ Proof.
     unfold write_created. apply encode_frame. unfold data. congruence.
 Qed.
 
-Lemma commit_effect_updated_rlock : forall ro lb cr up idle s u sfx,
+Lemma commit_effect_updated_rlock : forall ro cr up idle s u sfx,
   NoDup (map tid cr ++ map tid up ++ idle) -> In u up ->
-  lookup (run s (commit_ops ro lb cr up idle)) (KRLock sfx, tid u) = lookup s (KRLock sfx, tid u).
+  lookup (run s (commit_ops ro cr up idle)) (KRLock sfx, tid u) = lookup s (KRLock sfx, tid u).
 Proof.
-  intros ro lb cr up idle s u sfx Hnd Hu.
+  intros ro cr up idle s u sfx Hnd Hu.
   rewrite (run_filter_tbl _ s (tid u) (KRLock sfx)) by apply commit_ops_local.
-  rewrite (filter_updated ro lb cr up idle u Hnd Hu). apply run_frame.
+  rewrite (filter_updated ro cr up idle u Hnd Hu). apply run_frame.
   intros o Ho Hp. apply in_app_or in Ho. destruct Ho as [Ho|Ho].
   - unfold write_updated in Ho. apply encode_ops_spec in Ho. destruct Ho as [_ [_ E]]. rewrite E in Hp.
     destruct Hp as [Hp|[]]. discriminate Hp.
   - destruct ro; simpl in Ho; repeat (destruct Ho as [Ho|Ho]; [subst o; simpl in Hp; repeat (destruct Hp as [Hp|Hp]; [discriminate Hp|]); contradiction|]); contradiction.
 Qed.
 
-Lemma commit_effect_idle : forall ro lb cr up idle s t,
+Lemma commit_effect_idle : forall ro cr up idle s t,
   NoDup (map tid cr ++ map tid up ++ idle) -> In t idle ->
-  let s' := run s (commit_ops ro lb cr up idle) in
+  let s' := run s (commit_ops ro cr up idle) in
   lookup s' (tempp t) = None /\ lookup s' (lockp t) = None
   /\ (forall kd, kd <> KTemp -> kd <> KLock -> lookup s' (kd, t) = lookup s (kd, t)).
 Proof.
-  intros ro lb cr up idle s t Hnd Ht. cbv zeta.
-  assert (R : forall kd, lookup (run s (commit_ops ro lb cr up idle)) (kd, t) = lookup (run s (release_idle t)) (kd, t)).
+  intros ro cr up idle s t Hnd Ht. cbv zeta.
+  assert (R : forall kd, lookup (run s (commit_ops ro cr up idle)) (kd, t) = lookup (run s (release_idle t)) (kd, t)).
   { intros kd. rewrite (run_filter_tbl _ s t kd) by apply commit_ops_local.
-    rewrite (filter_idle ro lb cr up idle t Hnd Ht). reflexivity. }
+    rewrite (filter_idle ro cr up idle t Hnd Ht). reflexivity. }
   unfold tempp, lockp. rewrite !R. unfold release_idle, release_lock. stp. split; [|split].
   - fsn. reflexivity.
   - fsn. reflexivity.
@@ -740,11 +740,11 @@ Proof. intros done done' s s' p [t [c [A [B C]]]] Hsub E. exists t, c. rewrite E
 Lemma commit_inv : forall g s0 s oc ou oi f, InvP s0 s -> InvP s0 (fst (exec_commit g s oc ou oi f)).
 Proof.
   intros g s0 s oc ou oi f I. unfold exec_commit.
-  set (c := p_cont s). set (lb := c_linebreak g).
+  set (c := p_cont s).
   set (crl := sort_by oc (created_tbls c)). set (upl := sort_by ou (updated_tbls c)). set (idl := sort_by oi (idle_tbls c)).
   set (cr := changes c crl). set (up := changes c upl).
   unfold InvP in I. fold c in I.
-  destruct (match f with Some k => Nat.ltb k (length (concat (map (write_created lb) cr ++ map (write_updated lb) up))) | None => false end).
+  destruct (match f with Some k => Nat.ltb k (length (concat (map write_created cr ++ map write_updated up))) | None => false end).
   - (* the writing phase fails after some of its calls *)
     unfold InvP. cbn [fst emit p_fs p_cont p_done]. fold c. apply content_inv; [exact I|].
     intros o Ho. apply firstn_In in Ho. apply in_concat in Ho. destruct Ho as [b [Hb Ho]].
@@ -765,15 +765,15 @@ Proof.
     fold crl upl idl cr up in Hready.
     pose proof (commit_lists_nodup c oc ou oi (inv_nodup _ _ _ _ I)) as Hnd.
     fold crl upl idl cr up in Hnd.
-    set (done' := map (fun u => (tid u, new_content lb u)) (cr ++ up) ++ p_done s).
+    set (done' := map (fun u => (tid u, new_content u)) (cr ++ up) ++ p_done s).
     assert (Hsub : forall x, In x (p_done s) -> In x done') by (intros x Hx; unfold done'; apply in_or_app; auto).
     constructor; try (intros x []; fail); [constructor|].
     intros [kd t] _.
     destruct (in_dec N.eq_dec t (map h_tbl c)) as [Hin|Hnin].
     2:{ (* a table the process holds nothing of *)
       assert (Hno : ~ In (kd, t) (owned c)) by (apply not_owned_other_tbl; exact Hnin).
-      assert (Hsame : lookup (run (p_fs s) (commit_ops (c_rename_over g) lb cr up idl)) (kd, t) = lookup (p_fs s) (kd, t)).
-      { rewrite <- (firstn_all (commit_ops (c_rename_over g) lb cr up idl)).
+      assert (Hsame : lookup (run (p_fs s) (commit_ops (c_rename_over g) cr up idl)) (kd, t) = lookup (p_fs s) (kd, t)).
+      { rewrite <- (firstn_all (commit_ops (c_rename_over g) cr up idl)).
         apply crash_foreign_untouched.
         - unfold cr. rewrite map_tid_changes. intros H. apply sort_by_In in H. apply Hnin.
           unfold created_tbls in H. apply In_tbls in H. destruct H as [h [Hh [_ E]]]. rewrite <- E. apply in_map. exact Hh.
@@ -787,14 +787,14 @@ Proof.
     destruct (tbl_cases c t Hin) as [Hc|[Hu|Hi]].
     + (* created by the transaction *)
       destruct (created_handler _ _ _ _ _ I Hc) as [h [Hh [_ [Et Hr]]]].
-      set (u := mkT t (body_of c t)).
+      set (u := mkT t (fst (body_of c t)) (snd (body_of c t))).
       assert (Hu : In u cr) by (unfold cr, changes; apply in_map_iff; exists t; split; [reflexivity | apply sort_by_In; exact Hc]).
       destruct (exists_b_true _ _ (eq_ind _ (fun x => exists_b (p_fs s) (data x) = true) (inv_data _ _ _ _ I h Hh) _ Et)) as [dc Hdc].
-      destruct (commit_effect_created (c_rename_over g) lb cr up idl (p_fs s) u dc Hnd Hu Hdc) as [A1 [A2 A3]].
+      destruct (commit_effect_created (c_rename_over g) cr up idl (p_fs s) u dc Hnd Hu Hdc) as [A1 [A2 A3]].
       assert (Own : forall p, snd p = t -> (In p (owned c) <-> In p [data t; lockp t])).
       { intros p Ep. rewrite <- Hr. apply (owned_of_tbl s0 (p_fs s) c (p_done s) h p I Hh). congruence. }
       destruct kd.
-      * right. exists t, (new_content lb u). split; [reflexivity|]. split; [|exact A1].
+      * right. exists t, (new_content u). split; [reflexivity|]. split; [|exact A1].
         unfold done'. apply in_or_app. left. apply in_map_iff. exists u. split; [reflexivity | apply in_or_app; auto].
       * left. change (KLock, t) with (lockp (tid u)). rewrite A2. symmetry.
         apply (inv_owned _ _ _ _ I). apply (Own (lockp t) eq_refl). simpl. auto.
@@ -806,31 +806,31 @@ Proof.
         intros H. apply (Own (KRLock sfx, t) eq_refl) in H. simpl in H. destruct H as [H|[H|[]]]; discriminate H.
     + (* updated *)
       destruct (updated_or_idle_handler _ _ _ _ _ I (or_introl Hu)) as [h [Hh [_ [Et Hr]]]].
-      set (u := mkT t (body_of c t)).
+      set (u := mkT t (fst (body_of c t)) (snd (body_of c t))).
       assert (Huu : In u up) by (unfold up, changes; apply in_map_iff; exists t; split; [reflexivity | apply sort_by_In; exact Hu]).
-      destruct (commit_complete_updated (c_rename_over g) lb cr up idl (p_fs s) u Hready Huu) as [A1 [A2 A3]].
+      destruct (commit_complete_updated (c_rename_over g) cr up idl (p_fs s) u Hready Huu) as [A1 [A2 A3]].
       assert (Own : forall p, snd p = t -> (In p (owned c) <-> In p [tempp t; lockp t])).
       { intros p Ep. rewrite <- Hr. apply (owned_of_tbl s0 (p_fs s) c (p_done s) h p I Hh). congruence. }
       destruct kd.
-      * right. exists t, (new_content lb u). split; [reflexivity|]. split; [|exact A1].
+      * right. exists t, (new_content u). split; [reflexivity|]. split; [|exact A1].
         unfold done'. apply in_or_app. left. apply in_map_iff. exists u. split; [reflexivity | apply in_or_app; auto].
       * left. change (KLock, t) with (lockp (tid u)). rewrite A3. symmetry.
         apply (inv_owned _ _ _ _ I). apply (Own (lockp t) eq_refl). simpl. auto.
       * left. change (KTemp, t) with (tempp (tid u)). rewrite A2. symmetry.
         apply (inv_owned _ _ _ _ I). apply (Own (tempp t) eq_refl). simpl. auto.
-      * left. change t with (tid u) at 1. rewrite (commit_effect_updated_rlock _ _ _ _ _ _ u sfx Hnd Huu).
+      * left. change t with (tid u) at 1. rewrite (commit_effect_updated_rlock _ _ _ _ _ u sfx Hnd Huu).
         apply (rest_control s0 _ c (p_done s)); [exact I | | reflexivity].
         intros H. apply (Own (KRLock sfx, t) eq_refl) in H. simpl in H. destruct H as [H|[H|[]]]; discriminate H.
     + (* held but unchanged *)
       destruct (updated_or_idle_handler _ _ _ _ _ I (or_intror Hi)) as [h [Hh [_ [Et Hr]]]].
       assert (Hii : In t idl) by (apply sort_by_In; exact Hi).
-      destruct (commit_effect_idle (c_rename_over g) lb cr up idl (p_fs s) t Hnd Hii) as [A1 [A2 A3]].
+      destruct (commit_effect_idle (c_rename_over g) cr up idl (p_fs s) t Hnd Hii) as [A1 [A2 A3]].
       assert (Own : forall p, snd p = t -> (In p (owned c) <-> In p [tempp t; lockp t])).
       { intros p Ep. rewrite <- Hr. apply (owned_of_tbl s0 (p_fs s) c (p_done s) h p I Hh). congruence. }
       destruct kd.
       * assert (Hno : ~ In (KData, t) (owned c)).
         { intros H. apply (Own (KData, t) eq_refl) in H. simpl in H. destruct H as [H|[H|[]]]; discriminate H. }
-        assert (Hsame : lookup (run (p_fs s) (commit_ops (c_rename_over g) lb cr up idl)) (KData, t) = lookup (p_fs s) (KData, t)) by (apply A3; discriminate).
+        assert (Hsame : lookup (run (p_fs s) (commit_ops (c_rename_over g) cr up idl)) (KData, t) = lookup (p_fs s) (KData, t)) by (apply A3; discriminate).
         destruct (inv_rest _ _ _ _ I _ Hno) as [R|R].
         -- left. rewrite Hsame. exact R.
         -- right. apply (committed_mono (p_done s) done' (p_fs s)); assumption.
